@@ -8,6 +8,13 @@
 #include <nop/types/thread_local.h>
 #include <nop/utility/endian.h>
 #include <nop/utility/sip_hash.h>
+#include <nop/utility/bounded_reader.h>
+#include <nop/utility/bounded_writer.h>
+#include <nop/utility/buffer_reader.h>
+#include <nop/utility/buffer_writer.h>
+#include <nop/utility/constexpr_buffer_writer.h>
+#include <nop/utility/pedantic_buffer_reader.h>
+#include <nop/utility/pedantic_buffer_writer.h>
 
 using namespace nop;
 
@@ -52,6 +59,20 @@ void ProbeUtilities() {
   constexpr std::uint64_t kCompileTime = SipHash::Compute("abcdefghijklmnop", 7, 8);
   static_assert(kCompileTime != 0, "");
 
+  // copy / move / assign every small value-like class (their special members are part of the contract: a moved
+  // Deserializer copies its reader, SipHash takes readers by value)
+  {
+    std::uint8_t mem[8] = {};
+    BufferReader br{mem, sizeof(mem)}; BufferReader br2{br}; br2 = br; BufferReader br3{std::move(br)}; br3 = std::move(br2);
+    PedanticBufferReader pr{mem, sizeof(mem)}; PedanticBufferReader pr2{pr}; pr2 = pr; PedanticBufferReader pr3{std::move(pr)}; pr3 = std::move(pr2);
+    BufferWriter bw{mem, sizeof(mem)}; BufferWriter bw2{bw}; bw2 = bw; BufferWriter bw3{std::move(bw)}; bw3 = std::move(bw2);
+    PedanticBufferWriter pw{mem, sizeof(mem)}; PedanticBufferWriter pw2{pw}; pw2 = pw; PedanticBufferWriter pw3{std::move(pw)}; pw3 = std::move(pw2);
+    ConstexprBufferWriter cw{mem, sizeof(mem)}; ConstexprBufferWriter cw2{cw}; cw2 = cw; ConstexprBufferWriter cw3{std::move(cw)}; cw3 = std::move(cw2);
+    BoundedReader<BufferReader> r1{&br3, 4}; BoundedReader<BufferReader> r2{r1}; r2 = r1; BoundedReader<BufferReader> r3{std::move(r1)}; r3 = std::move(r2);
+    BoundedWriter<BufferWriter> w1{&bw3, 4}; BoundedWriter<BufferWriter> w2{w1}; w2 = w1; BoundedWriter<BufferWriter> w3{std::move(w1)}; w3 = std::move(w2);
+    BlockReader<char> k1{name}; BlockReader<char> k2{k1}; k2 = k1; BlockReader<char> k3{std::move(k1)}; k3 = std::move(k2);
+    (void)pr3; (void)pw3; (void)cw3; (void)r3; (void)w3; (void)k3;
+  }
   ThreadLocal<int> a{1};
   ThreadLocal<std::string, ThreadLocalTypeSlot<Slotted>> b{"x"};
   ThreadLocal<int, ThreadLocalIndexSlot<3>> c;
